@@ -289,3 +289,109 @@ def r01_3e_constructs(ctx):
             ctx.check(ok, "R01.3e", construct, f"executions differ: only in the reference {sorted(want - got)[:2]}, only in the lowered graph {sorted(got - want)[:2]}", where, fact={"executions": len(want)})
     ctx.analysed(*[ctx.model.find_class(c).fq + ".__teal__" for c in ("If", "While", "For", "Cond", "Seq", "Break", "Continue", "Return", "Assert")])
     ctx.require_min("R01.3e", 100)
+
+
+# ------------------------------------------------------------------------------------------ the passes composed
+def flat_low_traces(code: list, L: int, cap: int = 200000):
+    """bounded executions of a flattened component list whose ops are constructed ops (OpVal) and LABEL markers"""
+    labels = {}
+    for i, c in enumerate(code):
+        if isinstance(c, Sym) and c.name == "LABEL":
+            if id(c.attrs["ref"]) in labels:
+                return {("<label defined twice>",)}
+            labels[id(c.attrs["ref"])] = i
+    out, stack, steps = set(), [(0, ())], 0
+    while stack:
+        pc, seq = stack.pop()
+        while True:
+            steps += 1
+            if steps > cap:
+                raise AnalysisError("flat code enumeration exceeded its budget")
+            if len(seq) >= L:
+                out.add(seq[:L])
+                break
+            if pc >= len(code):
+                out.add(seq + ("<runs off the end>",))
+                break
+            c = code[pc]
+            if isinstance(c, Sym) and c.name == "LABEL":
+                pc += 1
+                continue
+            if not isinstance(c, OpVal):
+                raise AnalysisError(f"unexpected component {c!r} in flattened code")
+            if c.op in ("b", "bz", "bnz"):
+                tgt = labels.get(id(c.args[0])) if c.args else None
+                if tgt is None:
+                    out.add(seq + (f"<{c.op} to an undefined label>",))
+                    break
+                if c.op == "b":
+                    pc = tgt
+                elif c.op == "bnz":
+                    stack.append((pc + 1, seq + ("F",)))
+                    pc, seq = tgt, seq + ("T",)
+                else:
+                    stack.append((tgt, seq + ("F",)))
+                    pc, seq = pc + 1, seq + ("T",)
+                continue
+            sym = c.args[0] if c.op in ("$push", "$effect") else c.op
+            seq = seq + (sym,)
+            if sym in ("return_", "retsub", "err"):
+                out.add(seq[:L])
+                break
+            pc += 1
+    return out
+
+
+def r01_15_pipeline(ctx):
+    import collections
+    from sa.minieval import run_function
+
+    ctx.rule("R01.15", "the passes composed: a main program built from the repository's constructs, taken through compileSubroutine (lowering, parent pointers, normalisation), sortBlocks and flattenBlocks - all interpreted, on the repository's own block classes - yields a component list whose executions, read by the reference machine for labels and b/bz/bnz, are exactly the executions of the reference semantics of the program; nothing runs off the end")
+    comp = ctx.model.find_func("compileSubroutine", "pyteal.compiler.compiler")
+    sortf = ctx.model.find_func("sortBlocks", "pyteal.compiler.sort")
+    flat = ctx.model.find_func("flattenBlocks", "pyteal.compiler.flatten")
+    ctx.analysed(comp.fq, sortf.fq, flat.fq)
+    L = 26
+    progs = programs(ctx.tier)
+    if ctx.tier == "quick":
+        progs = progs[::2]
+    for p in progs:
+        full = ("seq", [p, ("ret", V(99))])
+        want = ref_traces(ref_build(full, END, None, None), L)
+        B = Builder(ctx, "list")
+        W = B.W
+        W.real_blocks = True
+        construct = f"pipeline[{show(p)}]"
+
+        def extra(e, me):
+            t = q.u(e) if hasattr(q, "u") else None
+            from sa.astutil import u as _u
+
+            t = _u(e)
+            if t == "compileSubroutine":
+                return lambda *a: me.call_def(comp.node, list(a), {}, {})
+            if t == "defaultdict":
+                return collections.defaultdict
+            if t == "LabelReference":
+                return lambda nm: Sym(f"label:{nm}")
+            if t == "TealLabel":
+                return lambda expr, ref, *a, **k: Sym("LABEL", attrs={"ref": ref})
+            raise Unknown()
+
+        def setup(me):
+            W.me = me
+            W.objs.me = me
+            me.isinstance_hook = lambda v, cname: ((cname.split(".")[-1] in v.attrs["$isa"]) if isinstance(v, Sym) and "$isa" in v.attrs else None)
+
+        try:
+            obj = B.mk(full)
+            starts, ends, graph = {}, {}, {}
+            run_function(comp.node, {"ast": obj, "options": B.options, "subroutineGraph": graph, "subroutine_start_blocks": starts, "subroutine_end_blocks": ends}, W.oracle(extra), comp.fq, permissive=True, setup=setup, resolver=W.objs.resolver)
+            order, _ = run_function(sortf.node, {"start": starts[None], "end": ends[None]}, W.oracle(extra), sortf.fq, permissive=True, setup=setup, resolver=W.objs.resolver)
+            code, _ = run_function(flat.node, {"blocks": order}, W.oracle(extra), flat.fq, permissive=True, setup=setup, resolver=W.objs.resolver)
+        except Raised as r:
+            ctx.bad("R01.15", construct, f"a well-formed program dies in the pipeline: {r.exc_text[:80]}", comp.where)
+            continue
+        got = flat_low_traces(list(code), L)
+        ctx.check(got == want, "R01.15", construct, f"executions differ: only in the reference {sorted(want - got)[:2]}, only in the compiled code {sorted(got - want)[:2]}", comp.where, fact={"executions": len(want), "components": len(code)})
+    ctx.require_min("R01.15", 30)
